@@ -735,6 +735,9 @@ def run(chk):
     # evaluated here on the branch family (branch kind x nesting depth x extra operands x result type) and the branch scripts
     c03.LETTERS.update(tabs['letter'])
     c03.DECL_RULE[0], c03.DECL_COUNT[0] = 'R11.11', 0
+    # R11.15: a branch that carries a value moves it into the result slot of its target (block or if label); otherwise the code after
+    # the construct reads a slot variable that was not assigned on that path - an indeterminate value (rule shared with C03 R03.2)
+    c03.CARRY_RULE[0] = 'R11.15'
     try:
         it3 = emit.make_interp(tus)
         c03.check_branch_family(chk, it3, tabs, chk.tier)
@@ -742,6 +745,7 @@ def run(chk):
         n_decl = c03.DECL_COUNT[0]
     finally:
         c03.DECL_RULE[0] = 'R03.5'
+        c03.CARRY_RULE[0] = 'R03.2'
     chk.require(n_decl >= 100, 'declared-slot rule evaluated on %d scripts only' % n_decl)
     # R11.12: memcpy between two locations of linear memory - ranges that the module chooses and that may overlap - is undefined
     # behaviour (7.24.2.1); such a copy needs memmove.  Every memcpy call of the runtime header is examined: a call is fine when at
